@@ -27,8 +27,8 @@ chk("C03", "exploration",
     "Bounded work is a per-job CPU-time budget (not the step-counting checked build planned in DESIGN §3.1, which was not built). UBSan's nonnull-attribute check is off (memset(NULL,0,0) is not one of the behaviours the property lists). Red-zone sanitizers miss non-adjacent overflows.",
     "runtime monitoring: compiler sanitizers (ASan+UBSan) + allocator interposition + status/suspension monitors in a scripted C driver over hostile inputs", "DESIGN.md §5 C03, §3.4")
 chk("C05", "exploration",
-    "For each small input (valid, truncated, corrupted) of every std decoder, one sweep runs EVERY single split point of the source (and of the destination capacity for io_transformers) and compares each chunked run with the one-shot run of the same sanitized binary on output bytes, final status, getters and (non-error) consumed count; larger inputs get seeded random multi-splits down to 1 byte. Held on what was observed; one known finding (xz non-final filters).",
-    "Single-split sweeps are exhaustive per input; inputs and multi-split plans are sampled. Generated-program (liveness) leg planned in DESIGN is not yet wired here.",
+    "For each small input (valid, truncated, corrupted) of every std decoder, one sweep runs EVERY single split point of the source (and of the destination capacity for io_transformers) and compares each chunked run with the one-shot run of the same sanitized binary on output bytes, final status, getters and (non-error) consumed count; larger inputs get seeded random multi-splits down to 1 byte. Generated coroutine programs accepted by the real checker and compiled by the real wuffs-c get the same treatment (one-shot vs every single split, byte-by-byte, random multi-splits; ASan+UBSan and -O2). Held on what was observed; one known finding (xz non-final filters).",
+    "Single-split sweeps are exhaustive per input; inputs and multi-split plans are sampled. Generated leg: coroutine programs that touch their streams only through `?` methods (incl. randomly structured bodies aimed at the liveness analysis) are run one-shot and under every single source/capacity split, byte-by-byte and random multi-splits in both C builds.",
     "runtime monitoring: differential oracle (chunked vs one-shot execution of the same compiled code) under ASan+UBSan", "DESIGN.md §5 C05")
 chk("C07", "exploration",
     "Payload classes are pushed through independent reference encoders (Go flate/zlib/gzip/lzw/png/gif, /usr/bin bzip2 and xz) and decoded by the generated Wuffs decoders in the ASan+UBSan and -O2 builds; bytes/pixels, OK status and consumed count must match; Wuffs CRC-32/CRC-64/Adler-32/SHA-256 over random update partitions must equal Go's. Stream features (stored/fixed/dynamic blocks, 15-bit codes, distance 32768) are confirmed by scanning the encoded stream.",
@@ -60,7 +60,7 @@ chk("C16", "exploration",
     "runtime monitoring: reference-model oracle (Go decoders + original payload) over seeded and per-stream-exhaustive executions", "DESIGN.md §5 C16")
 chk("C17", "exploration",
     "Round trips over all lengths 0..1099, 64 KiB boundary lengths, carry-chain constructions and random payloads: Decode(Encode(x)) must return x with no remainder; the xz tool must decode the encoding to x; an independent XZ container walker checks framing, padding, CRCs, index and footer; mutated encodings and random bytes must not panic and output must stay within 4096*len+4096.",
-    "The Wuffs std/lzma and std/xz decoder leg is not wired yet (xz tool and own walker are the independent decoders). xz leg runs on a subset in quick tier.",
+    "Third decoder leg: a bounded sample of the encodings (about 1000 quick / 24000 thorough) is decoded by the generated Wuffs std/lzma and std/xz decoders (ASan+UBSan build of the working tree's C). The xz tool leg runs on a subset in the quick tier.",
     "runtime monitoring: reference-model oracles (xz tool, own container walker, payload) + resource limits", "DESIGN.md §5 C17")
 chk("C18", "exploration",
     "Images over sizes (1..17, 65535 on one axis), the three colour types, quantisation tables and coefficient classes (extremes, DC swings, zero runs 15/16/17/62, stuffing-heavy) are encoded; an independent baseline-JPEG reader (tables read from the file) must decode every block to round(coef/q), headers must match, exactly ceil*ceil units are accepted, image/jpeg accepts the file, no panic/allocation; FDCT output valid and |IDCT(FDCT(p))-p| checked. One known finding (round trip off by 2 for rare blocks).",
@@ -72,7 +72,7 @@ chk("C19", "exploration",
     "runtime monitoring: reference decoder + independent structural walker over boundary-targeted executions", "DESIGN.md §5 C19")
 chk("C20", "exploration",
     "The real wuffs-c and `wuffs gen`, built from the working tree, are run on every std package under repeated fresh processes, GOMAXPROCS 1/16, GOGC=1, altered environment, other working directory, and on tmpfs copies of std created in forward/reverse/shuffled order; outputs are compared by SHA-256; the regenerated release file must equal the committed snapshot, gen.go output must equal data.go, the argv a wuffs-c shim receives must list files sorted, and the verif-tagged tool with its switch off must be byte-identical.",
-    "Tools are single-threaded: scheduling variation is GOMAXPROCS/GC only. Generated (non-std) packages not yet included.",
+    "Tools are single-threaded: scheduling variation is GOMAXPROCS/GC only. Beyond std: synthetic multi-struct packages with many statuses/consts (the map-heavy paths) and histories of tool runs on one root.",
     "runtime monitoring: repeated-run output comparison of the real tools under varied environments", "DESIGN.md §5 C20")
 
 chk("C01", "exploration",
